@@ -1,6 +1,11 @@
 PROPERTY = {'id': 'C01',
- 'contract_modules': ['doctest_example', 'util_stream', 'checker', 'doctest_part', 'runner'],
+ 'extra': ['bounded.c01_chunks.run'],
+ 'contract_modules': ['doctest_example', 'util_stream', 'checker', 'doctest_part', 'runner', 'parser'],
  'functions': ['xdoctest.doctest_example:DocTest.run',
+               'xdoctest.parser:DoctestParser._package_chunk#slices',
+               'xdoctest.parser:DoctestParser._package_chunk.slice_example',
+               'xdoctest.parser:DoctestParser._locate_ps1_linenos',
+               'xdoctest.directive:Directive.extract',
                'xdoctest.utils.util_stream:CaptureStdout.__init__',
                'xdoctest.utils.util_stream:CaptureStdout.__enter__',
                'xdoctest.utils.util_stream:CaptureStdout.__exit__',
@@ -31,7 +36,14 @@ PROPERTY = {'id': 'C01',
                    'the pre-import / namespace setup happens before the first executed part and never again (setup-once clauses)',
                    'the stdout of an executed part is logged under its index on every outcome; CaptureStdout.__exit__: text is exactly what was '
                    'appended to the capture buffer since the matching __enter__',
-                   "compilable_source: the part's lines joined (plus a final newline in single mode)"],
+                   "compilable_source: the part's lines joined (plus a final newline in single mode)",
+                   'DoctestParser._package_chunk: the parts of a chunk are consecutive, forward, non-overlapping slices of its lines that start '
+                   'at line 0 and end at its end (loop clauses for the slices made in the loops, exit facts for the one or two made after '
+                   'them), so every statement line is in exactly one part, in order; a directive forces a break before its statement, an '
+                   'inline one also after it; slice_example: a part executes / shows exactly the lines [s1, s2) and starts at lineno + s1'],
+             'B': ['the real _locate_ps1_linenos / _package_chunk on every sequence of up to 3 (thorough: 4) statement shapes (decorators, PS1/PS2 '
+                   'continuation lines, multi-line strings, comments, block and inline directives) x want / no want: partition, offsets, no '
+                   'statement cut, directive scope, want on the last part only, statement starts (bounded/c01_chunks.py)'],
              'T': ['compile / exec / eval / asyncio.run as oracles (pyvc/models_run.py): return a value or raise any class, write to the current '
                    'sys.stdout, may rebind sys.stdout, bind names in the dict they are given',
                    'CPython: an exception raised while running code compiled with filename F has a traceback entry of F',
@@ -40,7 +52,9 @@ PROPERTY = {'id': 'C01',
                    'DoctestPart.directives / has_any_code, DocTest._parse/_pre_run/_import_module/_test_globals/repr_failure: assumed contracts (see '
                    'evidence.assumed_contracts)',
                    'no --global-exec code is configured (DoctestConfig.global_exec is None)',
-                   'io.StringIO buffer/position model'],
+                   'io.StringIO buffer/position model',
+                   '_locate_ps1_linenos returns increasing in-range statement starts (assumed by the _package_chunk contract; exercised by the '
+                   'bounded stand-in); sorted(set(xs)) of ints: strictly increasing, same members'],
              'N/A': ['"the effect equals executing the de-prompted source as an ordinary program": needs a semantics of compile/exec and of the '
                      'tokenizer-based statement splitter (_locate_ps1_linenos, is_balanced_statement); the slicing half of the parser is C13']},
  'explanation': 'C01 as event clauses on DocTest.run (compile/exec exactly once, in order, one namespace) and the capture contracts.'}
